@@ -24,11 +24,11 @@ from fractions import Fraction as Fr
 import common as C
 from common import f2b, b2f
 
-HEADER = "Require Import JF.Base.QInterval JF.Model.Thinning JF.Model.ThinningCases.\nOpen Scope Q_scope."
+HEADER = "From Coq Require Import QArith.\nRequire Import JF.Base.QInterval JF.Model.Thinning JF.Model.ThinningCases.\nOpen Scope Q_scope."
 REL_TOL = Fr(1, 10 ** 12)
 # rounding residue of the lattice sum when the component along the direction of motion is (sub)denormal / zero:
-# observed <= 1e-20 / L^2; anything above this floor counts (see known fact in the final report / evidence)
-ABS_FLOOR = 1e-18
+# observed <= 6e-19 / L^2 (terms of the sum are O(1/L^2), so the residue is O(1e-16/L^2)); anything above this floor counts (see known fact in the final report / evidence)
+ABS_FLOOR = 1e-15
 
 STRATA = ["uniform", "origin", "faces", "faces_exact", "axis", "edge", "tiny"]
 
@@ -78,7 +78,7 @@ def domination_monitor(ctx):
         key = (s["kb"], s["km"], s["alpha"], s["fourier_cutoff"], s["position_cutoff"])
         combos.setdefault(key, []).append(s)
     jobs = []
-    n = ctx.n(40000, 1500000)
+    n = ctx.n(200000, 1500000)
     lengths = {1.0, 10.0}
     for key, ss in combos.items():
         ls = sorted({s["L"] for s in ss} | (lengths if key[0] is None else set()))
@@ -120,6 +120,7 @@ def domination_monitor(ctx):
                     res["max_ratio"], res["max_at"] = ratio, where
                 if ratio > per_combo.get(k, (0, None))[0]:
                     per_combo[k] = (ratio, [x / L for x in where["separation"]])
+    res["violations"].sort(key=lambda w: -w["true_derivative"] * w["L"] ** 2)     # the largest rate first
     res["combos"] = [{"kb": k[0], "km": k[1], "L": k[2], "max_ratio": v[0], "at_over_L": v[1]}
                      for k, v in sorted(per_combo.items(), key=lambda kv: str(kv[0]))]
     return res
@@ -193,7 +194,9 @@ def gen_case(rng, fam, L, npr):
         else:
             w = 1.0 / npr
             r = {"id": root_id, "pos": [f2b(x) for x in base[ri]], "children": []}
-            for j in range(npr):
+            single = fam in ("leaf", "cell_leaf", "veto_leaf")     # branch of one leaf unit: root + that leaf only
+            js = [active_leaf if ri == active_root else rng.randrange(npr)] if single else range(npr)
+            for j in js:
                 off = [(rng.random() - 0.5) * 0.1 * L for _ in range(3)]
                 ch = {"id": root_id + [j], "pos": [f2b((base[ri][k] + off[k]) % L) for k in range(3)], "w": f2b(w),
                       "charge": f2b(charges[ri] * (1 if j % 2 == 0 else -1) if npr > 1 else charges[ri])}
@@ -328,10 +331,6 @@ def check_glue(cfg, case, res, lin, active, composite):
 
     def charge(u):
         return b2f(u["charge"]) if use_charge else 1.0
-    by_id = {tuple(u["id"]): u for u in lin}
-    charges = res.get("charges", {})
-    for u in lin:
-        u["charge"] = charges.get(json.dumps(u["id"]))
     others = [u for u in lin if u["id"][0] != active["id"][0]]
     if not composite:
         others = [u for u in lin if u is not active]
@@ -404,7 +403,7 @@ RUN_CONFIGS = [
 def real_runs(ctx, configs=None):
     if configs is None:
         configs = RUN_CONFIGS[:ctx.n(3, 5)]
-    end = ctx.n("4.0", "40.0")
+    end = ctx.n("30.0", "300.0")
     payloads = [{"mode": "runs", "config": {"ini": c, "seed": ctx.rng.randrange(1 << 30),
                                             "override": [["FinalTimeEndOfRunEventHandler", "end_of_run_time", end]]}}
                 for c in configs]
